@@ -41,6 +41,9 @@ PROPS = {
     'C15': dict(engine='labels', module='Kvass.Props.C15', search_n=1500,
                 assumptions=['label names and values are byte strings; Go string comparison = byte-wise lexicographic order', 'xxhash64 and FNV-1a are implemented in Lean and compared bit for bit with the Go libraries on every generated target; nothing is claimed about their collision resistance'],
                 partial='"different labels or URL give different hashes" is false of any 64-bit hash as a universal statement and is not a theorem: proved are order independence, being a function of (label set, URL), and injectivity of the byte encoding fed to xxhash; distinctness of single-difference pairs is tested by the engine'),
+    'C16': dict(engine='cfghash', module='Kvass.Props.C16', search_n=30,
+                assumptions=['hashstructure FormatV2 with default options is transcribed by hand into Lean (HS.hs) and compared bit for bit with the library on every reflected configuration; types customising hashing (Hashable/Includable) are reported as unsupported', 'YAML parsing / rendering (config.Load, Config.String) are library code: formatting independence is checked by the engine, not proved'],
+                partial='"changes whenever any other setting changes" is not provable of a 64-bit hash; proved are: blindness of the struct walk to unexported fields (hence the need for the rendered text), independence of map order and of external labels; sensitivity to each kind of single-setting edit (incl. regex and secret edits) is monitored over an edit catalogue'),
     'C17': dict(engine='disc', module='Kvass.Props.C17', search_n=1500,
                 assumptions=['a discovered target is represented by the outcome of its translation (key = final labels + URL, dropped, rejected); the label pipeline itself is C02/C15', 'TargetsDiscovery methods are atomic under their mutex (goroutine interleavings inside a method are not modelled)'],
                 partial='update / reload / group theorems are per step, for every state; the explorer table is proved for reloads and compared with the real Explore on every history; readers running concurrently with writers are exercised only by the snapshot re-comparison'),
@@ -57,6 +60,7 @@ PROPS = {
 }
 
 LEVEL_TEXT = {
+    'C16': 'Machine-checked theorems (Lean 4) about a transcription of hashstructure v2 over a reflected value tree: the struct walk ignores every unexported field (all relabel regexes hash alike), map order and external labels do not matter. The transcription reproduces the real ConfigHash bit for bit on every configuration the engine reflects (coordinator and a child process); a catalogue of single-setting edits, re-formattings and external-label edits is monitored on the real ConfigManager.',
     'C15': 'Machine-checked theorems (Lean 4) about an executable re-implementation of targetHash (xxhash64 + FNV-1a, known-answer tested and compared bit for bit with the real hash of every generated target): invariance under every permutation of the labels (so group/target split and map order cannot matter), function of label set and URL, injective pre-hash encoding. The engine additionally compares hashes across discovery rounds, target orders, label splits and a freshly exec\'ed process.',
     'C19': 'Machine-checked theorems (Lean 4): runOnce yields for replica i exactly Coord.cycle of i\'s own reports, one result per replica whatever fails, hence C01/C04 guarantees per replica. The tie to the code is the replicas engine: the real runOnce with 2-3 replicas (list errors, scale errors, unready replicas, different placements) over 1-2 cycles; every replica\'s requests must be an outcome of the model on that replica alone, explorer status objects must be unchanged.',
     'C20': 'Machine-checked theorems (Lean 4) by induction over every interleaving of gets, discovery updates, reloads, probe starts, probe results and retry timers: an entry owns at most one token (queued / in flight / sleeping), tokens exist only for asked, not yet successful entries, no token after success, a failed probe arms exactly one timer that re-queues iff the same entry is still listed, the estimate is the successful probe\'s counts. Conditions regenerated from explore.go; linearised event logs of the real Explore with 1-3 workers are validated against the model with timers firing at any moment.',
@@ -80,10 +84,10 @@ NOT_APPLICABLE = {
     'C06': 'check under construction', 
     'C11': 'check under construction',
     'C14': 'check under construction',
-    'C16': 'check under construction',
 }
 
 ENGINES = [
+    {'name': 'cfghash', 'path': 'harness/cmd/kvh/cfghash.go', 'kind_free_text': 'reflection dump of the parsed prometheus config (unexported fields included) hashed by the Lean model of hashstructure vs. ConfigManager.ConfigHash; edit catalogue; child process'},
     {'name': 'labels', 'path': 'harness/cmd/kvh/labels.go', 'kind_free_text': 'random scrape configs x target groups through the real TargetsDiscovery; hashes recomputed in Lean, compared across rounds / permutations / processes'},
     {'name': 'replicas', 'path': 'harness/cmd/kvh/replicas.go', 'kind_free_text': 'real Coordinator.runOnce with several replicas sharing options / discovered set / explorer objects, 1-2 cycles; per-replica outcomes matched against Coord.cycle alone through the coord driver'},
     {'name': 'explore', 'path': 'harness/cmd/kvh/explore.go', 'kind_free_text': 'real Explore.Run with 1-3 workers; probes block in an in-memory transport until released with a chosen result; event log validated against Explore.step (set-of-states simulation), plus per-hash monitors'},
